@@ -33,9 +33,10 @@ def spaces(tier, prop):
     if prop == "C19":
         vals = ["@plain", "@comma", "@space", "@brackets", "@nonascii"]
     else:
-        vals = ["@plain", "@comma", "@brackets", "@nonascii", "@innerq", "@bslash", "@newline", "@semi", "@hash", "@endbs", "@tag"]
+        vals = ["@plain", "@comma", "@brackets", "@nonascii", "@innerq", "@bslash", "@newline", "@mlshape", "@mlinject", "@semi", "@hash",
+                "@endbs", "@tag"]
     if tier == "quick":
-        vals = vals[:7]
+        vals = vals[:9]
     conds = []
     for i, v in enumerate(vals):
         tag = [":is", ":contains", ":matches"][i % 3]
